@@ -32,7 +32,7 @@ func (c04) Rule() string {
 }
 func (c04) Batches(string) int { return 32 }
 func (c04) Required(string) []string {
-	return []string{"roundtrips", "const_profile", "generated", "with_source_modules", "with_builtin_modules", "error_outcomes_with_trace", "kind.float", "kind.string", "kind.compiledFunction", "kind.map", "boundary_roundtrips", "writer_fault_points"}
+	return []string{"roundtrips", "const_profile", "generated", "with_source_modules", "with_builtin_modules", "error_outcomes_with_trace", "kind.float", "kind.string", "kind.compiledFunction", "kind.map", "boundary_roundtrips", "writer_fault_points", "mixed_module_kinds"}
 }
 func (c04) Assumptions() []string {
 	return []string{"running the original bytecode is the reference", "canon.Outcome comparison (floats by bits, traces as file:line)"}
@@ -189,6 +189,23 @@ func c04syntheticModule() map[string]ugo.Object {
 	}
 }
 
+// c04plainModule is the third module kind: an Importable whose Import returns a plain object (here a Map without a
+// module name marker), which the compiler stores as an ordinary constant.
+type c04plainModule struct{}
+
+func (c04plainModule) Import(string) (any, error) {
+	return ugo.Map{"v": ugo.Int(7), "list": ugo.Array{ugo.Int(1), ugo.String("two")}, "nested": ugo.Map{"a": ugo.Float(1.5)}}, nil
+}
+
+// programs mixing the module kinds in every import order (the serializer post-processes decoded module constants in
+// constant order)
+var c04mixedModules = []string{
+	"global L\nparam p\npl := import(\"plainmap\")\nm := import(\"synth\")\ns := import(\"strings\")\nreturn [pl.v, pl.list, m.fn(1, 2), m.ops.double(1), s.ToUpper(\"ab\"), m.bfn(1)]\n",
+	"global L\nparam p\ns := import(\"strings\")\npl := import(\"plainmap\")\nm := import(\"synth\")\nreturn [s.ToUpper(\"ab\"), pl.nested.a, m.fn(1, 2), m.hooks[0](), m.smapfn.f()]\n",
+	"global L\nparam p\nm := import(\"synth\")\ns := import(\"strings\")\npl := import(\"plainmap\")\nk := {lit: 1}\nreturn [m.fn(1), s.Repeat(\"a\", 2), pl.v, k]\n",
+	"global L\nparam p\nk := {lit: [1, {deep: 2}]}\nf := func() {\n  return import(\"plainmap\").v\n}\nt := import(\"time\")\nj := import(\"json\")\nreturn [k, f(), string(j.Marshal(k)), t.Second > 0, import(\"fmt\").Sprintf(\"%d\", 5)]\n",
+}
+
 const c04synthUser = "global L\nparam p\nm := import(\"synth\")\nr := [m.izero, m.ione, m.uzero, m.fzero, m.fneg, m.czero, m.ca, m.sempty, m.s, m.t, m.f, m.undef, m.bytes, m.bempty, m.arr, m.aempty, m.map, m.mempty, string(m.err), m.sync, m.fn(1, 2), m.bfn(1), m.__module_name__, m.ops.double(1, 2, 3), m.ops.k, m.hooks[0](), m.hooks[2].deep(), m.smapfn.f(), string(m.err2), string(m.err2.Cause), string(m.errs.e1), string(m.errs.e2), string(m.errs.e3), string(m.errarr[0]), string(m.errarr[1]), string(m.serrs.a), string(m.serrs.b)]\nm.arr[0] = 99\nm.map.k = 98\nreturn p ? r : [import(\"synth\").arr, import(\"synth\").map]\n"
 
 func bytecodeKinds(c *core.Ctx, bc *ugo.Bytecode) (jumps int, nonScalar int) {
@@ -290,6 +307,7 @@ func (m c04) Run(c *core.Ctx) {
 		if json.Unmarshal(c.Replay, &w) == nil && w.Program != nil {
 			mm := moduleMapFor(w.Program)
 			mm.AddBuiltinModule("synth", c04syntheticModule())
+			mm.Add("plainmap", c04plainModule{})
 			m.roundTrip(c, w.Program, mm, [][]ugo.Object{{ugo.True}, {ugo.False}, {}, {ugo.Int(2), ugo.Int(0)}}, 0)
 			m.roundTrip(c, w.Program, mm, [][]ugo.Object{{ugo.True}, {ugo.False}, {}, {ugo.Int(2), ugo.Int(0)}}, -1)
 		}
@@ -317,6 +335,26 @@ func (m c04) Run(c *core.Ctx) {
 			if m.roundTrip(c, p, mm, boolVectors, opt) {
 				c.Count("const_profile")
 				c.Nontrivial(fmt.Sprint(opt) + progHash(p))
+			}
+		}
+	}
+	for mi, src := range c04mixedModules {
+		for _, opt := range []int{-1, 0} {
+			idx++
+			if idx%c.NBatch != c.Batch {
+				continue
+			}
+			src := src
+			p := &Program{Src: src, Tags: []string{"mixed-module-kinds"}, Builtin: []string{"strings", "time", "json", "fmt"}}
+			if !c.Begin(func() string { return src }) {
+				continue
+			}
+			mm := moduleMapFor(p)
+			mm.AddBuiltinModule("synth", c04syntheticModule())
+			mm.Add("plainmap", c04plainModule{})
+			if m.roundTrip(c, p, mm, boolVectors, opt) {
+				c.Count("mixed_module_kinds")
+				c.Nontrivial(fmt.Sprintf("mixed-%d-%d", mi, opt))
 			}
 		}
 	}
